@@ -347,9 +347,45 @@ def h_state_annotator(eng):
         eng.prove("annot.differentiated_symbol_marked_once", z3.If(should, marked, untouched))
 
 
+def h_instances_own_their_prefix_lists(eng):
+    """The two in-place writers of `prefixes` (StateAnnotator.exitComponentRef appends "state", flatten_symbols removes input/output)
+    require that no two symbols share a prefixes list.  Producer obligation: the copies flattening makes of one declaration -- one
+    deepcopy per instance, through whatever __deepcopy__ hooks the real ast classes define -- own their lists; then marking a
+    differentiated variable of one instance leaves its sibling, and the parsed declaration, as they were."""
+    from . import copy_model
+    from .ast_common import AstFactory
+    modules(eng)
+    eng.ext_modules["copy"] = copy_model.module()
+    A = AstFactory(eng)
+    npre = eng.choice(3)
+    pre = [[], ["input"], ["parameter", "output"]][npre]
+    eng.input("declared_prefixes", pre)
+    decl = A.new("Symbol", name="h", type=A.ref("Real"))
+    decl.fields["prefixes"] = VList(list(pre))
+    comp = A.new("Class", name="Tank", type="model")
+    comp.fields["symbols"].keys.append("h")
+    comp.fields["symbols"].vals.append(decl)
+    # one deep copy of the class per instance (find_class(copy=True) / copy_including_children), as build_instance_tree does
+    inst_a = copy_model.deepcopy(eng, comp)
+    inst_b = copy_model.deepcopy(eng, comp)
+    eng.cover("own.copied")
+    sa, sb = inst_a.fields["symbols"].vals[0], inst_b.fields["symbols"].vals[0]
+    lists = [decl.fields["prefixes"], sa.fields["prefixes"], sb.fields["prefixes"]]
+    eng.prove("own.copies_of_a_declaration_have_their_own_prefix_lists",
+              z3.BoolVal(all(isinstance(l, VList) for l in lists) and len({id(l) for l in lists}) == 3 and all(l.items == pre for l in lists)))
+    dims = [decl.fields["dimensions"], sa.fields["dimensions"], sb.fields["dimensions"]]
+    eng.prove("own.copies_of_a_declaration_have_their_own_dimension_lists", z3.BoolVal(len({id(l) for l in dims}) == 3))
+    # the real annotator on instance a, inside der(): a.h becomes a state, b.h and the declaration do not
+    tm = eng.load_module(TREE)
+    ann = VObj(eng.module_global(tm, "StateAnnotator"), {"node": inst_a, "in_der": 1})
+    eng.call(VBound(eng.find_function(TREE, "StateAnnotator.exitComponentRef"), ann), [A.ref("h")], {})
+    eng.prove("own.marking_one_instance_marks_only_that_instance",
+              z3.BoolVal(sa.fields["prefixes"].items == pre + ["state"] and sb.fields["prefixes"].items == pre and decl.fields["prefixes"].items == pre))
+
+
 HARNESSES = [("Generator.exitClass", h_exit_class), ("Generator._ast_symbols_to_variables", h_symbols_to_variables),
-             ("StateAnnotator", h_state_annotator)]
-EXPECTED_COVER = {"class.done", "vars.done", "annot.enterExpression", "annot.exitExpression", "annot.exitComponentRef"}
+             ("StateAnnotator", h_state_annotator), ("instances own their prefix lists (deepcopy of ast.Symbol, then the real annotator)", h_instances_own_their_prefix_lists)]
+EXPECTED_COVER = {"class.done", "vars.done", "annot.enterExpression", "annot.exitExpression", "annot.exitComponentRef", "own.copied"}
 BOUNDED = True
 LEVEL = "proof"
 TRUSTED = ["pyvc VC generator", "z3 5.1.0", "sorted() is a stable permutation ordered by the key",
@@ -363,7 +399,7 @@ ASSUMPTIONS = [
 EXPLANATION = "Classification precedence, order, der alignment, outputs and state annotation as per-function contracts."
 MANIFEST = {
     "category": "proof",
-    "text": "exitClass is executed symbolically for arbitrary prefix combinations, String-ness and emptiness of 1-3 symbols: each variable lands in exactly the list the statement's precedence gives (String constants/parameters in the string lists), declaration order is kept, der_states is aligned one-to-one with states, outputs are the output-prefixed states then algebraics. _ast_symbols_to_variables is verified for its list structure and StateAnnotator's three callbacks for the der-nesting counter and single marking. A bounded replay generates real models over prefix/type/der combinations.",
+    "text": "exitClass is executed symbolically for arbitrary prefix combinations, String-ness and emptiness of 1-3 symbols: each variable lands in exactly the list the statement's precedence gives (String constants/parameters in the string lists), declaration order is kept, der_states is aligned one-to-one with states, outputs are the output-prefixed states then algebraics. _ast_symbols_to_variables is verified for its list structure and StateAnnotator's three callbacks for the der-nesting counter and single marking; the copies flattening makes of one declaration (deepcopy through the real ast classes' hooks) own their prefix lists, so marking one instance's variable as a state leaves its siblings and the declaration alone. A bounded replay generates real models over prefix/type/der combinations.",
     "note": "Symbol counts enumerated up to 3; TreeWalker bracketing, sorted(), and the CasADi-side helpers are assumed; parsing of multi-keyword prefixes belongs to C04.",
     "technique": "contract-based deductive verification: whole-function symbolic execution with symbolic prefix membership, callee contracts, z3",
 }
